@@ -434,6 +434,18 @@ class Run(object):
 
 def execute_spec(spec):
     r = Run(spec).run()
+    case = spec.get('hash_seed_case')
+    if case:
+        # replay under the recorded hash seed: the contents read here are
+        # compared with the digest recorded under the other hash seed
+        mine = r.lib_digests.get(case['lib'])
+        others = [d for d in case['digests'] if d != mine]
+        if mine is not None and others:
+            r.viols.append(core.violation(
+                PROP, 'identical-contents', 'hash-seed',
+                'contents-depend-on-the-hash-seed',
+                {'lib': case['lib'], 'here': mine[:16],
+                 'elsewhere': [d[:16] for d in others]}))
     return r.viols, r.log.digest(), r
 
 
@@ -650,7 +662,39 @@ def summarise(results):
     }
 
 
+def hash_seed_dependence(cells, diverged):
+    """Contents must be identical however a library is located -- a
+    relocated copy is necessarily read by another process, which need not
+    share the hash seed."""
+    by_lib = {}
+    for hs in sorted(cells):
+        for r in cells[hs]:
+            for lib, dg in (r.get('lib_digests') or {}).items():
+                by_lib.setdefault(lib, {}).setdefault(dg, hs)
+    viols = []
+    for lib in sorted(by_lib):
+        if len(by_lib[lib]) > 1:
+            v = core.violation(
+                PROP, 'identical-contents', 'hash-seed',
+                'contents-depend-on-the-hash-seed',
+                {'lib': lib, 'digest_by_first_hash_seed':
+                 dict((d[:16], h) for d, h in by_lib[lib].items())})
+            other = sorted(by_lib[lib].items(), key=lambda kv: kv[1])
+            v['spec'] = {'property': PROP, 'id': 'hash-seed-%s' % lib,
+                         'hash_seed_case': {'lib': lib,
+                                            'digests': dict(by_lib[lib])},
+                         'roots': [bundled_dir()], 'env': {},
+                         'lives': [{'ops': [{'op': 'load_name',
+                                             'lib': lib}]}]}
+            v['hash_seed'] = other[-1][1]
+            v['run'] = 'hash-seed-%s' % lib
+            viols.append(v)
+    return viols[:2]
+
+
 def shrink(spec, signature):
+    if spec.get('hash_seed_case'):
+        return spec
     # scenarios are already small; drop lifetimes / operations greedily
     import copy
     best = copy.deepcopy(spec)
